@@ -112,7 +112,8 @@ class SsbGraphMinimizer:
                     ins = g.incident(v, IN)
                     if len(ins) == 1:
                         iv = g.es[ins[0]].source_vertex
-                        if isinstance(iv["op"], SsbLabel) and not iv["op"].referenced_from_other_routine:
+                        # (vertex 0 is where the routine starts, it stays)
+                        if isinstance(iv["op"], SsbLabel) and not iv["op"].referenced_from_other_routine and iv.index != 0:
                             # IS JUMP AND BEFORE IS LABEL (that only this routine uses):
                             vs_to_delete += self._optimize_paths__jump_after_label(g, jump=v, label=iv)
             g.delete_vertices(vs_to_delete)
@@ -702,6 +703,9 @@ class SsbGraphMinimizer:
                 ):
                     in_edges = v.in_edges()
                     out_edges = v.out_edges()
+                    if len(in_edges) == 0 and v.index == 0:
+                        # The routine starts with this jump, writing starts at vertex 0.
+                        continue
                     if len(in_edges) != 0:
                         assert len(in_edges) == 1 and len(out_edges) == 1
                         v_before = in_edges[0].source_vertex
@@ -734,7 +738,7 @@ class SsbGraphMinimizer:
                     in_edges = v.in_edges()
                     out_edges = v.out_edges()
                     if len(in_edges) == 0:
-                        if not v["op"].referenced_from_other_routine:
+                        if not v["op"].referenced_from_other_routine and v.index != 0:
                             vs_to_delete.add(v)
                     elif len(in_edges) == 1:
                         assert len(out_edges) == 1
